@@ -7,6 +7,7 @@ package main
 
 const hookIter = false
 const hookNode = false
+const hookRaw = false
 
 func (e *Exec) runNode() *Violation { return nil }
 
